@@ -96,6 +96,45 @@ def t_mul(a, b):
             return _ZERO
         if v == 1:
             return a
+    if not an and not bn:
+        # keep sign()/abs() terms linear: push a multiplication into If-terms (and through sums that contain them)
+        if _has_top_ite(a):
+            return _distribute(a, b)
+        if _has_top_ite(b):
+            return _distribute(b, a)
+    return a * b
+
+
+def _is_ite(t):
+    return z3.is_app_of(t, z3.Z3_OP_ITE)
+
+
+def _has_top_ite(t):
+    if _is_ite(t):
+        return True
+    if z3.is_app_of(t, z3.Z3_OP_ADD):
+        return any(_is_ite(c) or (z3.is_app_of(c, z3.Z3_OP_MUL) and any(_is_ite(cc) for cc in c.children())) for c in t.children())
+    if z3.is_app_of(t, z3.Z3_OP_MUL) and t.num_args() == 2:
+        return any(_is_ite(c) for c in t.children()) and any(is_num(c) for c in t.children())
+    return False
+
+
+def _distribute(a, b):
+    """a * b where a is an If-term, a numeral multiple of one, or a sum containing such"""
+    if _is_ite(a):
+        c, x, y = a.children()
+        return z3.If(c, t_mul(x, b), t_mul(y, b))
+    if z3.is_app_of(a, z3.Z3_OP_ADD):
+        out = None
+        for ch in a.children():
+            term = t_mul(ch, b)
+            out = term if out is None else t_add(out, term)
+        return out
+    if z3.is_app_of(a, z3.Z3_OP_MUL):
+        k = [c for c in a.children() if is_num(c)]
+        rest = [c for c in a.children() if not is_num(c)]
+        if len(k) == 1 and len(rest) == 1:
+            return t_mul(rest[0], t_mul(k[0], b))
     return a * b
 
 
@@ -238,6 +277,19 @@ class Sym:
 
     def item(self):
         return self
+
+    def conjugate(self):
+        return self
+
+    conj = conjugate
+
+    @property
+    def real(self):
+        return self
+
+    @property
+    def imag(self):
+        return 0.0
 
     def __hash__(self):
         return id(self)
